@@ -678,15 +678,17 @@ class Srfi113(Lib):
             return
         if name in self.FRESH:
             h.flag[dst] = False
-        elif name.endswith("!"):
-            pass
+        elif name.endswith("!") and name != "list->set!":
+            h.flag[dst] = True      # a linear-update procedure may return a copy (set-xor! does)
         else:
             if h.flag[src]:
                 h.sig_extra = {"sharing": "copy-of-copy"}
             h.flag[dst] = True
 
     def init(self, rng, i):
-        xs = rnd_list(rng)
+        # no negative elements: with the table-sharing defect a bag's count can be overwritten by an element, and
+        # bag-fold does not terminate on a negative count
+        xs = [abs(x) for x in rnd_list(rng)]
         if i < 2:
             return set(xs), "(set cmp %s)" % " ".join(map(str, xs))
         return collections.Counter(xs), "(bag cmp %s)" % " ".join(map(str, xs))
@@ -702,6 +704,10 @@ class Srfi113(Lib):
         o = self.ops
 
         lib = self
+
+        def elem(rng):
+            return rng.randrange(0, 14)
+        FUNS113 = [f for f in FUNS if "(- 5 x)" not in f[0]]
 
         def src_of(expr):
             i = expr.find("o")
@@ -782,7 +788,7 @@ class Srfi113(Lib):
 
         def s_map(h, rng):
             a, d = sset(rng), sset(rng)
-            fs, ff = rng.choice(FUNS)
+            fs, ff = rng.choice(FUNS113)
             return sstore(h, d, {ff(e) for e in h.m[a]}, "(set-map cmp %s o%d)" % (fs, a), "set-map")
         o.append(s_map)
 
@@ -903,7 +909,7 @@ class Srfi113(Lib):
 
         def b_map(h, rng):
             a, d = sbag(rng), sbag(rng)
-            fs, ff = rng.choice(FUNS)
+            fs, ff = rng.choice(FUNS113)
             r = C()
             for e, n in h.m[a].items():
                 r[ff(e)] += n
@@ -930,4 +936,679 @@ def sub(a, b):
     return all(b.get(e, 0) >= n for e, n in a.items())
 
 
-LIBS = [Srfi1(), Srfi133(), Srfi113()]
+
+# ================================================================================================
+# SRFI 146 mappings (persistent; keys and values small integers)
+
+PRED2 = [("(lambda (k v) (even? k))", lambda k, v: k % 2 == 0), ("(lambda (k v) (> v 20))", lambda k, v: v > 20),
+         ("(lambda (k v) (< k 5))", lambda k, v: k < 5), ("(lambda (k v) (odd? (+ k v)))", lambda k, v: (k + v) % 2 == 1),
+         ("(lambda (k v) #f)", lambda k, v: False), ("(lambda (k v) #t)", lambda k, v: True)]
+
+
+def flat(d):
+    out = []
+    for k in sorted(d):
+        out += [k, d[k]]
+    return out
+
+
+class Srfi146(Lib):
+    name = "srfi146"
+    imports = "(import (scheme base) (scheme write) (scheme process-context) (srfi 128) (srfi 146))"
+    header = ("(define cmp (make-default-comparator))\n"
+              "(define (%flat al) (if (null? al) '() (cons (car (car al)) (cons (cdr (car al)) (%flat (cdr al))))))\n"
+              "(define (%canon m) (%flat (mapping->alist m)))\n")
+
+    def init(self, rng, i):
+        d = {}
+        for _ in range(rng.choice([0, 1, 3, 6, 12, 25])):
+            d[rng.randrange(-5, 40)] = rng.randrange(0, 50)
+        return d, "(mapping cmp %s)" % " ".join("%d %d" % (k, v) for k, v in d.items())
+
+    def canon(self, m):
+        return flat(m)
+
+    def begin(self, h, rng):
+        # trees made by tree-split / tree-catenate break later deletions on the unchanged tree (known finding):
+        # the range and catenate operations are kept to a third of the histories, and a violation after one of them
+        # says so in its signature
+        h.split_ops = rng.random() < 0.33
+        h.sig_extra = {"after": "none"}
+
+    def __init__(self):
+        Lib.__init__(self)
+        o = self.ops
+        ctr = [100]
+
+        def val():
+            ctr[0] += 1
+            return ctr[0]
+
+        def key(rng, m):
+            if m and rng.random() < 0.5:
+                return rng.choice(sorted(m))
+            return rng.randrange(-6, 42)
+
+        def store(h, d, val_, expr, name):
+            h.m[d] = dict(val_)
+            return name, "(begin (set! o%d %s) (%%canon o%d))" % (d, expr, d), flat(h.m[d])
+
+        def upd(name, fexpr, fmodel, bang=False):
+            def op(h, rng):
+                a = slot(rng)
+                d = a if bang else slot(rng)
+                k, k2 = key(rng, h.m[a]), key(rng, h.m[a])
+                v, v2 = val(), val()
+                return store(h, d, fmodel(dict(h.m[a]), k, v, k2, v2),
+                             fexpr % {"a": "o%d" % a, "k": k, "v": v, "k2": k2, "v2": v2}, name)
+            o.append(op)
+
+        def set2(m, k, v, k2, v2):
+            m[k] = v
+            m[k2] = v2
+            return m
+
+        def adjoin(m, k, v, k2, v2):
+            m.setdefault(k, v)
+            m.setdefault(k2, v2)
+            return m
+
+        def replace(m, k, v, k2, v2):
+            if k in m:
+                m[k] = v
+            return m
+
+        def delete(m, k, v, k2, v2):
+            m.pop(k, None)
+            m.pop(k2, None)
+            return m
+
+        def update(m, k, v, k2, v2):
+            m[k] = (m[k] + 1) if k in m else v
+            return m
+        for bang in (False, True):
+            b = "!" if bang else ""
+            upd("mapping-set" + b, "(mapping-set" + b + " %(a)s %(k)d %(v)d %(k2)d %(v2)d)", set2, bang)
+            upd("mapping-adjoin" + b, "(mapping-adjoin" + b + " %(a)s %(k)d %(v)d %(k2)d %(v2)d)", adjoin, bang)
+            upd("mapping-replace" + b, "(mapping-replace" + b + " %(a)s %(k)d %(v)d)", replace, bang)
+            upd("mapping-delete" + b, "(mapping-delete" + b + " %(a)s %(k)d %(k2)d)", delete, bang)
+            upd("mapping-delete-all" + b, "(mapping-delete-all" + b + " %(a)s (list %(k)d %(k2)d))", delete, bang)
+            upd("mapping-update" + b, "(mapping-update" + b + " %(a)s %(k)d (lambda (x) (+ x 1)) (lambda () (- %(v)d 1)))", update, bang)
+            upd("mapping-update/default" + b, "(mapping-update" + b + "/default %(a)s %(k)d (lambda (x) (+ x 1)) (- %(v)d 1))", update, bang)
+
+        def intern(h, rng):
+            a, d = slot(rng), slot(rng)
+            k, v = key(rng, h.m[a]), val()
+            m = dict(h.m[a])
+            r = m.setdefault(k, v)
+            h.m[d] = m
+            return ("mapping-intern", "(call-with-values (lambda () (mapping-intern o%d %d (lambda () %d))) (lambda (m v) (set! o%d m) (list v (%%canon m))))"
+                    % (a, k, v, d), [r, flat(m)])
+        o.append(intern)
+
+        def pop(h, rng):
+            a, d = slot(rng), slot(rng)
+            if not h.m[a]:
+                return ("mapping-pop-empty", "(call-with-values (lambda () (mapping-pop o%d (lambda () (values 1 2 3)))) list)" % a,
+                        [1, 2, 3], "pure")
+            m = dict(h.m[a])
+            k = min(m)
+            v = m.pop(k)
+            h.m[d] = m
+            return ("mapping-pop", "(call-with-values (lambda () (mapping-pop o%d)) (lambda (m k v) (set! o%d m) (list k v (%%canon m))))" % (a, d),
+                    [k, v, flat(m)])
+        o.append(pop)
+
+        def filt(name, fexpr, fmodel, bang=False):
+            def op(h, rng):
+                a = slot(rng)
+                d = a if bang else slot(rng)
+                ps, pf = rng.choice(PRED2)
+                return store(h, d, fmodel(h.m[a], pf), fexpr % {"a": "o%d" % a, "p": ps}, name)
+            o.append(op)
+        filt("mapping-filter", "(mapping-filter %(p)s %(a)s)", lambda m, p: {k: v for k, v in m.items() if p(k, v)})
+        filt("mapping-remove", "(mapping-remove %(p)s %(a)s)", lambda m, p: {k: v for k, v in m.items() if not p(k, v)})
+        filt("mapping-filter!", "(mapping-filter! %(p)s %(a)s)", lambda m, p: {k: v for k, v in m.items() if p(k, v)}, True)
+        filt("mapping-remove!", "(mapping-remove! %(p)s %(a)s)", lambda m, p: {k: v for k, v in m.items() if not p(k, v)}, True)
+
+        def part(h, rng):
+            a = slot(rng)
+            ps, pf = rng.choice(PRED2)
+            m = h.m[a]
+            return ("mapping-partition", "(call-with-values (lambda () (mapping-partition %s o%d)) (lambda (x y) (list (%%canon x) (%%canon y))))" % (ps, a),
+                    [flat({k: v for k, v in m.items() if pf(k, v)}), flat({k: v for k, v in m.items() if not pf(k, v)})], "pure")
+        o.append(part)
+
+        def un(name, fexpr, fmodel):
+            def op(h, rng):
+                a, d = slot(rng), slot(rng)
+                return store(h, d, fmodel(h.m[a]), fexpr % {"a": "o%d" % a}, name)
+            o.append(op)
+        un("mapping-copy", "(mapping-copy %(a)s)", lambda m: m)
+        un("alist->mapping", "(alist->mapping cmp (reverse (mapping->alist %(a)s)))", lambda m: m)
+        un("alist->mapping!", "(alist->mapping! (mapping cmp 1000 1) (mapping->alist %(a)s))", lambda m: {**m, 1000: m.get(1000, 1)})
+        un("mapping-map", "(mapping-map (lambda (k v) (values (- k) (+ v 1))) cmp %(a)s)", lambda m: {-k: v + 1 for k, v in m.items()})
+        un("mapping-map/monotone", "(mapping-map/monotone (lambda (k v) (values (+ k 2) (* 2 v))) cmp %(a)s)", lambda m: {k + 2: 2 * v for k, v in m.items()})
+        un("mapping-unfold", "(mapping-unfold (lambda (i) (> i (mapping-size %(a)s))) (lambda (i) (values (* 3 i) i)) (lambda (i) (+ i 1)) 0 cmp)",
+           lambda m: {3 * i: i for i in range(len(m) + 1)})
+
+        def binop(name, fexpr, fmodel, bang=False):
+            def op(h, rng):
+                a, b = slot(rng), slot(rng)
+                d = a if bang else slot(rng)
+                return store(h, d, fmodel(h.m[a], h.m[b]), fexpr % {"a": "o%d" % a, "b": "o%d" % b}, name)
+            o.append(op)
+        for bang in (False, True):
+            b = "!" if bang else ""
+            binop("mapping-union" + b, "(mapping-union" + b + " %(a)s %(b)s)", lambda x, y: dict(y, **x) if False else {**y, **x}, bang)
+            binop("mapping-intersection" + b, "(mapping-intersection" + b + " %(a)s %(b)s)", lambda x, y: {k: v for k, v in x.items() if k in y}, bang)
+            binop("mapping-difference" + b, "(mapping-difference" + b + " %(a)s %(b)s)", lambda x, y: {k: v for k, v in x.items() if k not in y}, bang)
+            binop("mapping-xor" + b, "(mapping-xor" + b + " %(a)s %(b)s)",
+                  lambda x, y: {**{k: v for k, v in x.items() if k not in y}, **{k: v for k, v in y.items() if k not in x}}, bang)
+
+        def rangeop(name, fmodel):
+            def op(h, rng):
+                if not h.split_ops:
+                    return None
+                a, d = slot(rng), slot(rng)
+                k = key(rng, h.m[a])
+                bang = rng.random() < 0.3
+                h.sig_extra = {"after": "split/catenate"}
+                return store(h, d, {x: v for x, v in h.m[a].items() if fmodel(x, k)}, "(%s%s o%d %d)" % (name, "!" if bang else "", a, k), name)
+            o.append(op)
+        rangeop("mapping-range=", lambda x, k: x == k)
+        rangeop("mapping-range<", lambda x, k: x < k)
+        rangeop("mapping-range>", lambda x, k: x > k)
+        rangeop("mapping-range<=", lambda x, k: x <= k)
+        rangeop("mapping-range>=", lambda x, k: x >= k)
+
+        def split(h, rng):
+            a = slot(rng)
+            k = key(rng, h.m[a])
+            m = h.m[a]
+            sel = [lambda x: x < k, lambda x: x <= k, lambda x: x == k, lambda x: x >= k, lambda x: x > k]
+            return ("mapping-split", "(call-with-values (lambda () (mapping-split o%d %d)) (lambda ms (map %%canon ms)))" % (a, k),
+                    [flat({x: v for x, v in m.items() if f(x)}) for f in sel], "pure")
+        o.append(split)
+
+        def catenate(h, rng):
+            if not h.split_ops:
+                return None
+            h.sig_extra = {"after": "split/catenate"}
+            a, d = slot(rng), slot(rng)
+            k = key(rng, h.m[a])
+            m = dict(h.m[a])
+            m[k] = 999
+            return store(h, d, m, "(call-with-values (lambda () (mapping-split o%d %d)) (lambda (lt le eq ge gt) (mapping-catenate cmp lt %d 999 gt)))" % (a, k, k),
+                         "mapping-catenate")
+        o.append(catenate)
+
+        def q(name, fexpr, fmodel, cond=None):
+            def op(h, rng):
+                a, b = slot(rng), slot(rng)
+                if cond and not cond(h.m[a]):
+                    return None
+                k = key(rng, h.m[a])
+                ps, pf = rng.choice(PRED2)
+                return name, fexpr % {"a": "o%d" % a, "b": "o%d" % b, "k": k, "p": ps}, fmodel(h.m[a], h.m[b], k, pf), "pure"
+            o.append(op)
+        q("mapping-ref", "(mapping-ref %(a)s %(k)d (lambda () -77))", lambda m, b, k, p: m.get(k, -77))
+        q("mapping-ref-success", "(mapping-ref %(a)s %(k)d (lambda () -77) (lambda (v) (+ v 1000)))", lambda m, b, k, p: m[k] + 1000 if k in m else -77)
+        q("mapping-ref/default", "(mapping-ref/default %(a)s %(k)d -78)", lambda m, b, k, p: m.get(k, -78))
+        q("mapping-contains?", "(list (mapping-contains? %(a)s %(k)d) (mapping-empty? %(a)s) (mapping? %(a)s))", lambda m, b, k, p: [k in m, not m, True])
+        q("mapping-size", "(mapping-size %(a)s)", lambda m, b, k, p: len(m))
+        q("mapping-disjoint?", "(list (mapping-disjoint? %(a)s %(b)s))", lambda m, b, k, p: [not (set(m) & set(b))])
+        q("mapping-find", "(call-with-values (lambda () (mapping-find %(p)s %(a)s (lambda () (values -1 -1)))) list)",
+          lambda m, b, k, p: next(([x, m[x]] for x in sorted(m) if p(x, m[x])), [-1, -1]))
+        q("mapping-count", "(mapping-count %(p)s %(a)s)", lambda m, b, k, p: sum(1 for x, v in m.items() if p(x, v)))
+        q("mapping-any?", "(list (mapping-any? %(p)s %(a)s) (mapping-every? %(p)s %(a)s))",
+          lambda m, b, k, p: [any(p(x, v) for x, v in m.items()), all(p(x, v) for x, v in m.items())])
+        q("mapping-keys", "(list (mapping-keys %(a)s) (mapping-values %(a)s))", lambda m, b, k, p: [sorted(m), [m[x] for x in sorted(m)]])
+        q("mapping-entries", "(call-with-values (lambda () (mapping-entries %(a)s)) list)", lambda m, b, k, p: [sorted(m), [m[x] for x in sorted(m)]])
+        q("mapping-map->list", "(mapping-map->list (lambda (k v) (- v k)) %(a)s)", lambda m, b, k, p: [m[x] - x for x in sorted(m)])
+        q("mapping-for-each", "(let ((acc '())) (mapping-for-each (lambda (k v) (set! acc (cons k acc))) %(a)s) acc)", lambda m, b, k, p: sorted(m)[::-1])
+        q("mapping-fold", "(mapping-fold (lambda (k v acc) (cons (+ k v) acc)) '() %(a)s)", lambda m, b, k, p: [x + m[x] for x in sorted(m)][::-1])
+        q("mapping-fold/reverse", "(mapping-fold/reverse (lambda (k v acc) (cons (+ k v) acc)) '() %(a)s)", lambda m, b, k, p: [x + m[x] for x in sorted(m)])
+        q("mapping=?", "(list (mapping=? cmp %(a)s %(b)s) (mapping<=? cmp %(a)s %(b)s) (mapping=? cmp %(a)s (mapping-copy %(a)s)) (mapping<=? cmp %(a)s %(a)s))",
+          lambda m, b, k, p: [m == b, subm(m, b), True, True])
+        q("mapping<?", "(list (mapping<? cmp %(a)s %(b)s) (mapping>? cmp %(a)s %(b)s))",
+          lambda m, b, k, p: [subm(m, b) and m != b, subm(b, m) and m != b])
+        q("mapping>=?", "(list (mapping>=? cmp %(a)s %(b)s))", lambda m, b, k, p: [subm(b, m)])
+        q("mapping-min-key", "(list (mapping-min-key %(a)s) (mapping-max-key %(a)s) (mapping-min-value %(a)s) (mapping-max-value %(a)s))",
+          lambda m, b, k, p: [min(m), max(m), m[min(m)], m[max(m)]], cond=lambda m: len(m) > 0)
+        q("mapping-key-predecessor", "(list (mapping-key-predecessor %(a)s %(k)d (lambda () -99)) (mapping-key-successor %(a)s %(k)d (lambda () -99)))",
+          lambda m, b, k, p: [max([x for x in m if x < k], default=-99), min([x for x in m if x > k], default=-99)])
+
+
+def subm(a, b):
+    return all(k in b and b[k] == v for k, v in a.items())
+
+
+
+# ================================================================================================
+# (chibi iset): integer sets as trees of ranges / bitmaps
+
+class Iset(Lib):
+    name = "iset"
+    imports = "(import (scheme base) (scheme write) (scheme process-context) (chibi iset))"
+    header = "(define (%canon s) (%sorted (iset->list s)))\n"
+
+    def ielem(self, rng, h=None):
+        r = rng.random()
+        base = h.base if h is not None else 0
+        if r < 0.45:
+            return base + rng.randrange(0, 300)                 # dense: bitmaps
+        if r < 0.65:
+            return base + 1000 * rng.randrange(0, 40)           # sparse
+        if r < 0.8:
+            return base + rng.choice([127, 128, 129, 255, 256, 257, 511, 512, 513, 1023, 1024])
+        if r < 0.9:
+            return base + rng.randrange(0, 100000)
+        return base + rng.choice([0, 1, 2, 3])
+
+    def begin(self, h, rng):
+        # iset-union builds trees with overlapping nodes on the unchanged tree (known finding; everything that walks the
+        # tree afterwards can be wrong): kept to a third of the histories and named in later signatures
+        h.risky = rng.random() < 0.33
+        h.sig_extra = {"after": "none"}
+
+    def init(self, rng, i):
+        xs = sorted({self.ielem(rng) for _ in range(rng.choice([0, 1, 3, 8, 20, 40]))})
+        return set(xs), "(iset %s)" % " ".join(map(str, xs))
+
+    def canon(self, m):
+        return sorted(m)
+
+    def __init__(self):
+        Lib.__init__(self)
+        o = self.ops
+        lib = self
+
+        class H0:
+            base = 0
+        h0 = H0()
+
+        def store(h, d, val, expr, name):
+            h.m[d] = set(val)
+            return name, "(begin (set! o%d %s) (%%canon o%d))" % (d, expr, d), sorted(h.m[d])
+
+        def upd(name, fexpr, fmodel, bang=False):
+            def op(h, rng):
+                a = slot(rng)
+                d = a if bang else slot(rng)
+                x = lib.ielem(rng, h0)
+                y = rng.choice(sorted(h.m[a])) if h.m[a] and rng.random() < 0.6 else lib.ielem(rng, h0)
+                return store(h, d, fmodel(h.m[a], x, y), fexpr % {"a": "o%d" % a, "x": x, "y": y}, name)
+            o.append(op)
+        upd("iset-adjoin", "(iset-adjoin %(a)s %(x)d %(y)d)", lambda s, x, y: s | {x, y})
+        upd("iset-adjoin!", "(iset-adjoin! %(a)s %(x)d)", lambda s, x, y: s | {x}, True)
+        upd("iset-delete", "(iset-delete %(a)s %(y)d %(x)d)", lambda s, x, y: s - {x, y})
+        upd("iset-delete!", "(iset-delete! %(a)s %(y)d)", lambda s, x, y: s - {y}, True)
+        upd("list->iset", "(list->iset (list %(x)d %(y)d %(x)d) %(a)s)", lambda s, x, y: s | {x, y})
+        upd("list->iset!", "(list->iset! (list %(x)d %(y)d) %(a)s)", lambda s, x, y: s | {x, y}, True)
+
+        def rng_op(h, rng):
+            if not h.risky:
+                return None
+            h.sig_extra = {"after": "union"}
+            a, d = slot(rng), slot(rng)
+            lo = lib.ielem(rng, h0)
+            hi = lo + rng.choice([0, 1, 5, 60, 127, 128, 129, 300, 700])
+            return store(h, d, h.m[a] | set(range(lo, hi + 1)), "(iset-union o%d (make-iset %d %d))" % (a, lo, hi), "make-iset-range")
+        o.append(rng_op)
+
+        def binop(name, fexpr, fmodel, bang=False):
+            def op(h, rng):
+                a, b = slot(rng), slot(rng)
+                d = a if bang else slot(rng)
+                if bang and a == b:
+                    return None
+                if "union" in name:
+                    if not h.risky:
+                        return None
+                    h.sig_extra = {"after": "union"}
+                bexpr = "o%d" % b if not bang else "o%d" % b
+                return store(h, d, fmodel(h.m[a], h.m[b]), fexpr % {"a": "o%d" % a, "b": bexpr}, name)
+            o.append(op)
+        binop("iset-union", "(iset-union %(a)s %(b)s)", lambda x, y: x | y)
+        binop("iset-intersection", "(iset-intersection %(a)s %(b)s)", lambda x, y: x & y)
+        binop("iset-difference", "(iset-difference %(a)s %(b)s)", lambda x, y: x - y)
+        binop("iset-union!", "(iset-union! %(a)s %(b)s)", lambda x, y: x | y, True)
+        binop("iset-intersection!", "(iset-intersection! %(a)s %(b)s)", lambda x, y: x & y, True)
+        binop("iset-difference!", "(iset-difference! %(a)s %(b)s)", lambda x, y: x - y, True)
+
+        def un(name, fexpr, fmodel):
+            def op(h, rng):
+                a, d = slot(rng), slot(rng)
+                return store(h, d, fmodel(h.m[a]), fexpr % {"a": "o%d" % a}, name)
+            o.append(op)
+        un("iset-copy", "(iset-copy %(a)s)", lambda s: s)
+        un("iset-map", "(iset-map (lambda (x) (+ 3 (* 2 x))) %(a)s)", lambda s: {3 + 2 * x for x in s})
+        un("iset-map-collapse", "(iset-map (lambda (x) (quotient x 7)) %(a)s)", lambda s: {x // 7 for x in s})
+
+        def q(name, fexpr, fmodel, cond=None):
+            def op(h, rng):
+                a, b = slot(rng), slot(rng)
+                if cond and not cond(h.m[a]):
+                    return None
+                x = rng.choice(sorted(h.m[a])) if h.m[a] and rng.random() < 0.5 else lib.ielem(rng, h0)
+                exp = fmodel(h.m[a], h.m[b], x)
+                if exp is None:
+                    return None
+                return name, fexpr % {"a": "o%d" % a, "b": "o%d" % b, "x": x}, exp, "pure"
+            o.append(op)
+        q("iset-contains?", "(list (iset-contains? %(a)s %(x)d) (iset-contains? %(a)s (+ %(x)d 1)) (iset-contains? %(a)s (- %(x)d 1)))",
+          lambda s, b, x: [x in s, x + 1 in s, x - 1 in s])
+        q("iset-size", "(list (iset-size %(a)s) (iset-empty? %(a)s) (iset? %(a)s))", lambda s, b, x: [len(s), not s, True])
+        q("iset->list", "(iset->list %(a)s)", lambda s, b, x: sorted(s))
+        q("iset-fold", "(iset-fold (lambda (x acc) (cons x acc)) '() %(a)s)", lambda s, b, x: sorted(s)[::-1])
+        q("iset-for-each", "(let ((acc '())) (iset-for-each (lambda (x) (set! acc (cons x acc))) %(a)s) acc)", lambda s, b, x: sorted(s)[::-1])
+        q("iset=", "(list (iset= %(a)s %(b)s) (iset<= %(a)s %(b)s) (iset>= %(a)s %(b)s) (iset= %(a)s (iset-copy %(a)s)))",
+          lambda s, b, x: [s == b, s <= b, s >= b, True])
+        q("iset-cursor", "(let lp ((c (iset-cursor %(a)s)) (acc '())) (if (end-of-iset? c) (reverse acc) (lp (iset-cursor-next %(a)s c) (cons (iset-ref %(a)s c) acc))))",
+          lambda s, b, x: sorted(s))
+        q("iset-rank", "(iset-rank %(a)s %(x)d)", lambda s, b, x: sorted(s).index(x) if x in s else None, cond=lambda s: len(s) > 0)
+        q("iset-select", "(iset-select %(a)s (modulo %(x)d (iset-size %(a)s)))", lambda s, b, x: sorted(s)[x % len(s)], cond=lambda s: len(s) > 0)
+
+
+
+# ================================================================================================
+# generic sequence adapter used by SRFI 101 (random-access lists), SRFI 117 (list queues), SRFI 134 (ideques)
+
+class SeqLib(Lib):
+    to_list = "%s"          # scheme: object -> list
+    from_list = "%s"        # scheme: list -> object
+
+    def init(self, rng, i):
+        xs = rnd_list(rng)
+        return xs, self.from_list % ilist(xs)
+
+    def store(self, h, d, val, expr, name):
+        h.m[d] = cut(list(val))
+        return name, "(begin (set! o%d (%%cut %s)) (%%canon o%d))" % (d, expr, d), h.m[d]
+
+    def unary(self, name, fexpr, fmodel, cond=None):
+        def op(h, rng):
+            a, d = slot(rng), slot(rng)
+            if cond and not cond(h.m[a]):
+                return None
+            return self.store(h, d, fmodel(h.m[a]), fexpr % {"a": "o%d" % a}, name)
+        self.ops.append(op)
+
+    def binary(self, name, fexpr, fmodel):
+        def op(h, rng):
+            a, b, d = slot(rng), slot(rng), slot(rng)
+            return self.store(h, d, fmodel(h.m[a], h.m[b]), fexpr % {"a": "o%d" % a, "b": "o%d" % b}, name)
+        self.ops.append(op)
+
+    def with_k(self, name, fexpr, fmodel, strict=False):
+        def op(h, rng):
+            a, d = slot(rng), slot(rng)
+            n = len(h.m[a])
+            if strict and n == 0:
+                return None
+            k = rng.randrange(0, n if strict else n + 1)
+            x = elem(rng)
+            return self.store(h, d, fmodel(h.m[a], k, x), fexpr % {"a": "o%d" % a, "k": k, "x": x}, name)
+        self.ops.append(op)
+
+    def with_pred(self, name, fexpr, fmodel, obs=False):
+        def op(h, rng):
+            a, d = slot(rng), slot(rng)
+            ps, pf = rng.choice(PREDS)
+            if obs:
+                return name, fexpr % {"a": "o%d" % a, "p": ps}, fmodel(h.m[a], pf), "pure"
+            return self.store(h, d, fmodel(h.m[a], pf), fexpr % {"a": "o%d" % a, "p": ps}, name)
+        self.ops.append(op)
+
+    def observe(self, name, fexpr, fmodel, cond=None):
+        def op(h, rng):
+            a, b = slot(rng), slot(rng)
+            if cond and not cond(h.m[a]):
+                return None
+            k = rng.randrange(0, len(h.m[a])) if h.m[a] else 0
+            return name, fexpr % {"a": "o%d" % a, "b": "o%d" % b, "k": k}, fmodel(h.m[a], h.m[b], k), "pure"
+        self.ops.append(op)
+
+
+class Srfi101(SeqLib):
+    name = "srfi101"
+    imports = "(import (scheme base) (scheme write) (scheme process-context) (prefix (srfi 101) ra:))"
+    header = ("(define (%canon x) (ra:random-access-list->linear-access-list x))\n"
+              "(define (%from l) (ra:linear-access-list->random-access-list l))\n"
+              "(define (%cut x) (if (> (ra:length x) 40) (%from (list-tail (%canon x) (- (ra:length x) 40))) x))\n")
+    from_list = "(%%from %s)"
+
+    def store(self, h, d, val, expr, name):
+        val = list(val)
+        h.m[d] = val[-MAXLEN:] if len(val) > MAXLEN else val
+        return name, "(begin (set! o%d (%%cut %s)) (%%canon o%d))" % (d, expr, d), h.m[d]
+
+    def __init__(self):
+        Lib.__init__(self)
+        self.with_k("cons", "(ra:cons %(x)d %(a)s)", lambda a, k, x: [x] + a)
+        self.unary("cdr", "(ra:cdr %(a)s)", lambda a: a[1:], cond=lambda a: len(a) > 0)
+        self.unary("cddr", "(ra:cddr %(a)s)", lambda a: a[2:], cond=lambda a: len(a) > 1)
+        self.with_k("list-tail", "(ra:list-tail %(a)s %(k)d)", lambda a, k, x: a[k:])
+        self.with_k("list-set", "(ra:list-set %(a)s %(k)d %(x)d)", lambda a, k, x: a[:k] + [x] + a[k + 1:], strict=True)
+        self.binary("append", "(ra:append %(a)s %(b)s)", lambda a, b: a + b)
+        self.binary("append3", "(ra:append %(a)s %(b)s %(a)s)", lambda a, b: a + b + a)
+        self.unary("reverse", "(ra:reverse %(a)s)", lambda a: a[::-1])
+        self.unary("map", "(ra:map (lambda (x) (- (* 2 x) 1)) %(a)s)", lambda a: [2 * x - 1 for x in a])
+        self.binary("map2", "(ra:map + %(a)s %(a)s)", lambda a, b: [x + x for x in a])
+        self.with_k("make-list", "(ra:make-list %(k)d %(x)d)", lambda a, k, x: [x] * k)
+        self.with_k("list", "(ra:list %(x)d 1 2 %(k)d)", lambda a, k, x: [x, 1, 2, k])
+
+        def ref_update(h, rng):
+            a, d = slot(rng), slot(rng)
+            n = len(h.m[a])
+            if n == 0:
+                return None
+            k = rng.randrange(n)
+            old = h.m[a][k]
+            new = h.m[a][:k] + [old + 100] + h.m[a][k + 1:]
+            h.m[d] = new
+            return ("list-ref/update", "(call-with-values (lambda () (ra:list-ref/update o%d %d (lambda (x) (+ x 100)))) (lambda (v l) (set! o%d l) (list v (%%canon l))))"
+                    % (a, k, d), [old, new])
+        self.ops.append(ref_update)
+        self.observe("list-ref", "(ra:list-ref %(a)s %(k)d)", lambda a, b, k: a[k], cond=lambda a: len(a) > 0)
+        self.observe("car", "(list (ra:car %(a)s) (ra:pair? %(a)s) (ra:null? %(a)s) (ra:list? %(a)s))", lambda a, b, k: [a[0], True, False, True],
+                     cond=lambda a: len(a) > 0)
+        self.observe("cadr", "(list (ra:cadr %(a)s) (ra:caddr %(a)s))", lambda a, b, k: [a[1], a[2]], cond=lambda a: len(a) > 2)
+        self.observe("length", "(list (ra:length %(a)s) (ra:null? %(a)s) (ra:length<=? %(a)s %(k)d))",
+                     lambda a, b, k: [len(a), len(a) == 0, k <= len(a)])
+        self.observe("for-each", "(let ((acc '())) (ra:for-each (lambda (x) (set! acc (cons x acc))) %(a)s) acc)", lambda a, b, k: a[::-1])
+        self.observe("equal", "(list (equal? %(a)s %(b)s) (equal? %(a)s (%%from (%%canon %(a)s))))", lambda a, b, k: [a == b, True])
+
+
+class Srfi117(SeqLib):
+    """list queues are mutable: in-place operations act on the live object"""
+    name = "srfi117"
+    imports = "(import (scheme base) (scheme write) (scheme process-context) (only (srfi 1) last-pair) (srfi 117))"
+    header = ("(define (%canon q) (list-copy (list-queue-list q)))\n"
+              "(define (%cut q) (if (> (length (list-queue-list q)) 40) (make-list-queue (list-copy (list-tail (list-queue-list q) (- (length (list-queue-list q)) 40)))) q))\n")
+    from_list = "(make-list-queue %s)"
+
+    def begin(self, h, rng):
+        # list-queue-remove-back! leaves a stale last-pair pointer on the unchanged tree (known finding): it is kept to
+        # a third of the histories and named in the signature of whatever goes wrong afterwards
+        h.risky = rng.random() < 0.33
+        h.sig_extra = {"after": "none"}
+
+    def store(self, h, d, val, expr, name):
+        val = list(val)
+        h.m[d] = val[-MAXLEN:] if len(val) > MAXLEN else val
+        return name, "(begin (set! o%d (%%cut %s)) (%%canon o%d))" % (d, expr, d), h.m[d]
+
+    def __init__(self):
+        Lib.__init__(self)
+        o = self.ops
+
+        def mutate(name, gen):
+            def op(h, rng):
+                a = slot(rng)
+                r = gen(h, rng, a)
+                if r is None:
+                    return None
+                code, new, res = r
+                h.m[a] = list(new)
+                return name, "(let ((r %s)) (list r (%%canon o%d)))" % (code, a), [res, h.m[a]]
+            o.append(op)
+        mutate("add-front!", lambda h, rng, a: (lambda x: ("(begin (list-queue-add-front! o%d %d) 0)" % (a, x), [x] + h.m[a], 0))(elem(rng))
+               if len(h.m[a]) < MAXLEN else None)
+        mutate("add-back!", lambda h, rng, a: (lambda x: ("(begin (list-queue-add-back! o%d %d) 0)" % (a, x), h.m[a] + [x], 0))(elem(rng))
+               if len(h.m[a]) < MAXLEN else None)
+        mutate("remove-front!", lambda h, rng, a: ("(list-queue-remove-front! o%d)" % a, h.m[a][1:], h.m[a][0]) if h.m[a] else None)
+        def remove_back(h, rng, a):
+            if not h.m[a] or not h.risky:
+                return None
+            if len(h.m[a]) > 1:
+                h.sig_extra = {"after": "remove-back!"}
+            return "(list-queue-remove-back! o%d)" % a, h.m[a][:-1], h.m[a][-1]
+        mutate("remove-back!", remove_back)
+        mutate("remove-all!", lambda h, rng, a: ("(list-queue-remove-all! o%d)" % a, [], list(h.m[a])))
+        mutate("set-list!", lambda h, rng, a: (lambda xs: ("(begin (list-queue-set-list! o%d %s) 0)" % (a, ilist(xs)), xs, 0))(rnd_list(rng) + [2]))
+        mutate("set-list!-last", lambda h, rng, a: (lambda xs: ("(let ((l %s)) (list-queue-set-list! o%d l (last-pair l)) 0)" % (ilist(xs), a), xs, 0))(rnd_list(rng) + [1]))
+        mutate("map!", lambda h, rng, a: ("(begin (list-queue-map! (lambda (x) (- 7 x)) o%d) 0)" % a, [7 - x for x in h.m[a]], 0)
+               if h.m[a] else None)
+        # the empty list: on temporaries, as pure queries (they raise on the unchanged tree)
+        self.observe("set-list!-empty", "(%%try (lambda () (let ((q (list-queue 1 2))) (list-queue-set-list! q (list)) (list (list-queue-empty? q) (list-queue-list q)))))",
+                     lambda a, b, k: [True, []])
+        self.observe("map!-empty", "(%%try (lambda () (let ((q (list-queue))) (list-queue-map! (lambda (x) x) q) (list (list-queue-empty? q) (list-queue-list q)))))",
+                     lambda a, b, k: [True, []])
+        self.unary("list-queue-copy", "(list-queue-copy %(a)s)", lambda a: a)
+        self.unary("list-queue", "(apply list-queue (list-queue-list %(a)s))", lambda a: a)
+        self.unary("list-queue-unfold", "(list-queue-unfold (lambda (i) (>= i (length (list-queue-list %(a)s)))) (lambda (i) (* i 3)) (lambda (i) (+ i 1)) 0)",
+                   lambda a: [3 * i for i in range(len(a))])
+        self.unary("list-queue-unfold-right", "(list-queue-unfold-right (lambda (i) (>= i (length (list-queue-list %(a)s)))) (lambda (i) (* i 3)) (lambda (i) (+ i 1)) 0)",
+                   lambda a: [3 * i for i in range(len(a))][::-1])
+        self.unary("list-queue-unfold-onto", "(list-queue-unfold (lambda (i) (>= i 3)) (lambda (i) i) (lambda (i) (+ i 1)) 0 (list-queue-copy %(a)s))",
+                   lambda a: [0, 1, 2] + a)
+        self.unary("make-list-queue", "(make-list-queue (list-copy (list-queue-list %(a)s)))", lambda a: a)
+        self.unary("make-list-queue-last", "(let ((l (append (list-copy (list-queue-list %(a)s)) (list 5)))) (make-list-queue l (last-pair l)))", lambda a: a + [5])
+        self.unary("list-queue-map", "(list-queue-map (lambda (x) (* x x)) %(a)s)", lambda a: [x * x for x in a])
+        self.binary("list-queue-append", "(list-queue-append %(a)s %(b)s)", lambda a, b: a + b)
+        self.binary("list-queue-append3", "(list-queue-append %(a)s %(b)s %(a)s)", lambda a, b: a + b + a)
+        self.binary("list-queue-append!", "(list-queue-append! (list-queue-copy %(a)s) (list-queue-copy %(b)s) (list-queue))", lambda a, b: a + b)
+        self.binary("list-queue-concatenate", "(list-queue-concatenate (list %(a)s (list-queue 1 2) %(b)s))", lambda a, b: a + [1, 2] + b)
+        self.observe("front-back", "(list (list-queue-front %(a)s) (list-queue-back %(a)s) (list-queue-empty? %(a)s) (list-queue? %(a)s))",
+                     lambda a, b, k: [a[0], a[-1], False, True], cond=lambda a: len(a) > 0)
+        self.observe("empty?", "(list (list-queue-empty? %(a)s))", lambda a, b, k: [len(a) == 0])
+        self.observe("first-last", "(call-with-values (lambda () (list-queue-first-last %(a)s)) (lambda (f l) (list (list-copy f) (list-copy l))))",
+                     lambda a, b, k: [a, a[-1:]])
+        self.observe("for-each", "(let ((acc '())) (list-queue-for-each (lambda (x) (set! acc (cons x acc))) %(a)s) acc)", lambda a, b, k: a[::-1])
+
+
+class Srfi134(SeqLib):
+    name = "srfi134"
+    imports = "(import (scheme base) (scheme write) (scheme process-context) (srfi 134))"
+    header = ("(define (%canon d) (ideque->list d))\n"
+              "(define (%cut d) (let* ((l (ideque->list d)) (n (length l))) (if (> n 40) (list->ideque (list-tail l (- n 40))) d)))\n"
+              ";; the length field is part of every observation of a deque\n"
+              "(define (%canon d) (let ((l (ideque->list d))) (if (= (length l) (ideque-length d)) l (cons -1000000 (cons (ideque-length d) l)))))\n")
+    from_list = "(list->ideque %s)"
+
+    def begin(self, h, rng):
+        # ideque-drop / ideque-take-right build deques with a wrong length field on the unchanged tree (known finding):
+        # kept to a third of the histories and named in the signature of whatever goes wrong afterwards
+        h.risky = rng.random() < 0.33
+        h.sig_extra = {"after": "none"}
+
+    def with_k(self, name, fexpr, fmodel, strict=False):
+        if name not in ("drop", "take-right"):
+            return SeqLib.with_k(self, name, fexpr, fmodel, strict)
+
+        def op(h, rng):
+            a, d = slot(rng), slot(rng)
+            n = len(h.m[a])
+            if n == 0 or not h.risky:
+                return None
+            k = rng.randrange(0, n)
+            h.sig_extra = {"after": "drop"}
+            return self.store(h, d, fmodel(h.m[a], k, 0), fexpr % {"a": "o%d" % a, "k": k, "x": 0}, name)
+        self.ops.append(op)
+
+    def store(self, h, d, val, expr, name):
+        val = list(val)
+        h.m[d] = val[-MAXLEN:] if len(val) > MAXLEN else val
+        return name, "(begin (set! o%d (%%cut %s)) (%%canon o%d))" % (d, expr, d), h.m[d]
+
+    def __init__(self):
+        Lib.__init__(self)
+        ne = lambda a: len(a) > 0
+        self.with_k("add-front", "(ideque-add-front %(a)s %(x)d)", lambda a, k, x: [x] + a)
+        self.with_k("add-back", "(ideque-add-back %(a)s %(x)d)", lambda a, k, x: a + [x])
+        self.unary("remove-front", "(ideque-remove-front %(a)s)", lambda a: a[1:], cond=ne)
+        self.unary("remove-back", "(ideque-remove-back %(a)s)", lambda a: a[:-1], cond=ne)
+        self.with_k("take", "(ideque-take %(a)s %(k)d)", lambda a, k, x: a[:k], strict=True)
+        self.with_k("drop", "(ideque-drop %(a)s %(k)d)", lambda a, k, x: a[k:], strict=True)
+        self.with_k("take-right", "(ideque-take-right %(a)s %(k)d)", lambda a, k, x: a[len(a) - k:], strict=True)
+        self.with_k("drop-right", "(ideque-drop-right %(a)s %(k)d)", lambda a, k, x: a[:len(a) - k], strict=True)
+        # n = length is legal (SRFI 134) but rejected on the unchanged tree: observed separately, as pure queries
+        self.observe("take-full", "(%%try (lambda () (list (%%canon (ideque-take %(a)s (ideque-length %(a)s))) (%%canon (ideque-drop %(a)s (ideque-length %(a)s))))))",
+                     lambda a, b, k: [a, []])
+        self.observe("take-right-full", "(%%try (lambda () (list (%%canon (ideque-take-right %(a)s (ideque-length %(a)s))) (%%canon (ideque-drop-right %(a)s (ideque-length %(a)s))))))",
+                     lambda a, b, k: [a, []])
+        self.observe("split-at-full", "(%%try (lambda () (call-with-values (lambda () (ideque-split-at %(a)s (ideque-length %(a)s))) (lambda (x y) (list (%%canon x) (%%canon y))))))",
+                     lambda a, b, k: [a, []])
+        self.binary("append", "(ideque-append %(a)s %(b)s)", lambda a, b: a + b)
+        self.binary("append3", "(ideque-append %(a)s %(b)s %(a)s)", lambda a, b: a + b + a)
+        self.unary("append0", "(ideque-append)", lambda a: [])
+        self.unary("reverse", "(ideque-reverse %(a)s)", lambda a: a[::-1])
+        self.unary("map", "(ideque-map (lambda (x) (+ (* 2 x) 1)) %(a)s)", lambda a: [2 * x + 1 for x in a])
+        self.unary("filter-map", "(ideque-filter-map (lambda (x) (and (even? x) (* x x))) %(a)s)", lambda a: [x * x for x in a if x % 2 == 0])
+        self.unary("append-map", "(ideque-append-map (lambda (x) (list x (- x))) %(a)s)", lambda a: [y for x in a for y in (x, -x)])
+        self.unary("tabulate", "(ideque-tabulate (ideque-length %(a)s) (lambda (i) (- (* i i) 1)))", lambda a: [i * i - 1 for i in range(len(a))])
+        self.unary("unfold", "(ideque-unfold (lambda (i) (>= i (ideque-length %(a)s))) (lambda (i) (* 2 i)) (lambda (i) (+ i 1)) 0)",
+                   lambda a: [2 * i for i in range(len(a))])
+        self.unary("unfold-right", "(ideque-unfold-right (lambda (i) (>= i (ideque-length %(a)s))) (lambda (i) (* 2 i)) (lambda (i) (+ i 1)) 0)",
+                   lambda a: [2 * i for i in range(len(a))][::-1])
+        self.unary("ideque", "(apply ideque (ideque->list %(a)s))", lambda a: a)
+        self.with_pred("filter", "(ideque-filter %(p)s %(a)s)", lambda a, p: [x for x in a if p(x)])
+        self.with_pred("remove", "(ideque-remove %(p)s %(a)s)", lambda a, p: [x for x in a if not p(x)])
+        self.with_pred("take-while", "(ideque-take-while %(p)s %(a)s)", lambda a, p: a[:tw_(a, p)])
+        self.with_pred("drop-while", "(ideque-drop-while %(p)s %(a)s)", lambda a, p: a[tw_(a, p):])
+        self.with_pred("take-while-right", "(ideque-take-while-right %(p)s %(a)s)", lambda a, p: a[len(a) - tw_(a[::-1], p):])
+        self.with_pred("drop-while-right", "(ideque-drop-while-right %(p)s %(a)s)", lambda a, p: a[:len(a) - tw_(a[::-1], p)])
+        self.with_pred("partition", "(call-with-values (lambda () (ideque-partition %(p)s %(a)s)) (lambda (x y) (list (%%canon x) (%%canon y))))",
+                       lambda a, p: [[x for x in a if p(x)], [x for x in a if not p(x)]], obs=True)
+        self.with_pred("span", "(call-with-values (lambda () (ideque-span %(p)s %(a)s)) (lambda (x y) (list (%%canon x) (%%canon y))))",
+                       lambda a, p: [a[:tw_(a, p)], a[tw_(a, p):]], obs=True)
+        self.with_pred("break", "(call-with-values (lambda () (ideque-break %(p)s %(a)s)) (lambda (x y) (list (%%canon x) (%%canon y))))",
+                       lambda a, p: [a[:tw_(a, lambda x: not p(x))], a[tw_(a, lambda x: not p(x)):]], obs=True)
+        self.with_pred("find", "(list (ideque-find %(p)s %(a)s (lambda () -77)) (ideque-find-right %(p)s %(a)s (lambda () -77)))",
+                       lambda a, p: [next((x for x in a if p(x)), -77), next((x for x in reversed(a) if p(x)), -77)], obs=True)
+        self.with_pred("count", "(ideque-count %(p)s %(a)s)", lambda a, p: sum(1 for x in a if p(x)), obs=True)
+        self.with_pred("any", "(list (ideque-any (lambda (x) (and (%(p)s x) (+ x 50))) %(a)s) (ideque-every (lambda (x) (and (%(p)s x) (+ x 50))) %(a)s))",
+                       lambda a, p: [next((x + 50 for x in a if p(x)), False),
+                                     True if not a else (a[-1] + 50 if all(p(x) for x in a) else False)], obs=True)
+
+        def split_at(h, rng):
+            a = slot(rng)
+            if not h.m[a]:
+                return None
+            k = rng.randrange(0, len(h.m[a]))
+            return ("split-at", "(call-with-values (lambda () (ideque-split-at o%d %d)) (lambda (x y) (list (%%canon x) (%%canon y))))" % (a, k),
+                    [h.m[a][:k], h.m[a][k:]], "pure")
+        self.ops.append(split_at)
+        self.observe("front-back", "(list (ideque-front %(a)s) (ideque-back %(a)s) (ideque-empty? %(a)s) (ideque? %(a)s))",
+                     lambda a, b, k: [a[0], a[-1], False, True], cond=ne)
+        self.observe("length", "(list (ideque-length %(a)s) (ideque-empty? %(a)s))", lambda a, b, k: [len(a), len(a) == 0])
+        self.observe("ref", "(ideque-ref %(a)s %(k)d)", lambda a, b, k: a[k], cond=ne)
+        self.observe("ideque=", "(list (ideque= = %(a)s %(b)s) (ideque= = %(a)s (list->ideque (ideque->list %(a)s))) (ideque= = %(a)s %(b)s %(a)s) (ideque= =))",
+                     lambda a, b, k: [a == b, True, a == b, True])
+        self.observe("fold", "(ideque-fold (lambda (x acc) (cons x acc)) '() %(a)s)", lambda a, b, k: a[::-1])
+        self.observe("fold-right", "(ideque-fold-right (lambda (x acc) (cons x acc)) '() %(a)s)", lambda a, b, k: a)
+        self.observe("for-each", "(let ((acc '())) (ideque-for-each (lambda (x) (set! acc (cons x acc))) %(a)s) acc)", lambda a, b, k: a[::-1])
+        self.observe("for-each-right", "(let ((acc '())) (ideque-for-each-right (lambda (x) (set! acc (cons x acc))) %(a)s) acc)", lambda a, b, k: a)
+        self.observe("zip", "(ideque->list (ideque-zip %(a)s %(b)s))", lambda a, b, k: [[x, y] for x, y in zip(a, b)])
+
+
+def tw_(a, p):
+    i = 0
+    while i < len(a) and p(a[i]):
+        i += 1
+    return i
+
+
+LIBS = [Srfi1(), Srfi133(), Srfi113(), Srfi146(), Iset(), Srfi101(), Srfi117(), Srfi134()]
